@@ -9,6 +9,7 @@ import torch
 from kverif import gen
 from kverif import refmodel as rm
 
+EXT: dict = {}   # external state read by ('ext', key) hyper-parameter callables
 DT = {'float32': torch.float32, 'float64': torch.float64, 'bfloat16': torch.bfloat16, 'float16': torch.float16, None: None}
 
 
@@ -20,6 +21,12 @@ def mk(desc):
         return desc[1]
     if kind == 'none':
         return None
+    if kind == 'ext':
+        # a callable that ignores the step and reads external state (e.g. `lambda s: optimizer.param_groups[0]['lr']`)
+        key = desc[1]
+        f = lambda s: EXT[key]  # noqa: E731
+        f.__kv_name__ = str(desc)
+        return f
     if kind == 'mod':
         base, m = desc[1], desc[2]
         f = lambda s: base + s % m  # noqa: E731
@@ -200,6 +207,15 @@ class Session:
                 for q in self.model.parameters():
                     if q.grad is not None:
                         q.grad /= scale
+
+    def forward_only(self, batch=None):
+        """Train-mode forward without backward (e.g. a target computation or the first pass of activation checkpointing)."""
+        x = gen.make_batch(self.gen, batch or self.cfg['batch'], self.in_shape, self.pdt)
+        self.capture.clear()
+        with torch.no_grad():
+            self.model(x)
+        if self.ref is not None:
+            self.ref.forward_only(self.capture.moments_a())
 
     def eval_pass(self):
         self.model.eval()
